@@ -273,6 +273,41 @@ def corr_closed_form(res, tier, rng):
                          case["desc"])
 
 
+def relations(res):
+    """cheap relations between real runs of one commuting model (always run):
+    (a) a very cold bath (cutoff/T far beyond the overflow guard of the thermal integrands) gives
+        the zero-temperature dynamics up to O((T/cutoff)^2);
+    (b) a System object used for a second run with another time step gives what a fresh System
+        object gives."""
+    import oqupy
+    o = np.diag([1.0, 0.25, -0.5]).astype(complex)          # not symmetric about zero
+    h = np.diag([0.3, -0.2, 0.7]).astype(complex)
+    rho0 = np.full((3, 3), 1.0 / 3, dtype=complex)
+
+    def run(temp, dt, system, steps):
+        corr = oqupy.PowerLawSD(alpha=0.3, zeta=1.0, cutoff=3.0, cutoff_type="exponential",
+                                temperature=temp)
+        par = oqupy.TempoParameters(dt=dt, epsrel=1e-10, dkmax=None)
+        t = oqupy.Tempo(system, oqupy.Bath(o, corr), par, rho0, start_time=0.0)
+        return np.array(t.compute(steps * dt + dt / 4, progress_type="silent").states)
+
+    sysm = oqupy.System(h)
+    cold, zero = run(2.0e-3, 0.2, sysm, 4), run(0.0, 0.2, oqupy.System(h), 4)
+    err = float(np.abs(cold - zero).max())
+    res.case("relation:cold-bath", True, {"T": 2.0e-3, "difference_to_T=0": err})
+    if err > 1e-5:
+        res.fail("cold-bath:dynamics at T=2e-3 differ from T=0",
+                 {"coupling_eigenvalues": [1.0, 0.25, -0.5], "alpha": 0.3, "cutoff": 3.0, "dt": 0.2,
+                  "steps": 4, "difference": err})
+    again = run(0.0, 0.1, sysm, 8)            # the System object of the first run, half the step
+    fresh = run(0.0, 0.1, oqupy.System(h), 8)
+    err = float(np.abs(again - fresh).max())
+    res.case("relation:system-reuse", True, {"second_dt": 0.1, "difference_to_fresh_System": err})
+    if err > 1e-10:
+        res.fail("system-reuse:same System object with a second time step",
+                 {"first_dt": 0.2, "second_dt": 0.1, "difference_to_a_fresh_System_object": err})
+
+
 def search(res):
     """independent-boson solution with the double integral done by direct quadrature"""
     import oqupy
@@ -318,6 +353,12 @@ def search(res):
     for i in range(8):
         case = commuting_case(rng, "quick", force_shape={1: "rotated", 3: "repeated"}.get(i))
         case["dkmax"], case["tau"] = None, None
+        if i == 5:
+            # a very cold (but not zero-temperature) bath: cutoff / T far beyond the overflow guard
+            # of the thermal integrands; eigenvalues not symmetric about zero
+            case["correlations"] = oqupy.PowerLawSD(alpha=0.3, zeta=1.0, cutoff=3.0,
+                                                    cutoff_type="exponential", temperature=2.0e-3)
+            case["desc"]["bath"] = ("powerlaw", 0.3, 1.0, 3.0, "exponential", 2.0e-3)
         case["desc"]["dkmax"] = None
         corr = case["correlations"]
         n, dt, d = case["n"], case["dt"], case["d"]
@@ -349,6 +390,18 @@ def search(res):
                 states = oqupy.compute_dynamics(case["system"], initial_state=case["rho0"],
                                                 process_tensor=pt, start_time=case["start"],
                                                 progress_type="silent").states
+            if api == "tempo" and i % 4 == 0 and not unique:
+                # the same System object once more with half the time step (a convergence check):
+                # its states at the common times must follow the same solution
+                half = dict(case, dt=dt / 2, n=2 * n)
+                st2 = cases.make_tempo(half, unique=False, epsrel=1e-10).compute(
+                    cases.end_time(case), progress_type="silent").states
+                if len(st2) >= 2 * n + 1:
+                    states_half = [st2[2 * k] for k in range(n + 1)]
+                else:
+                    states_half = None
+            else:
+                states_half = None
             for k in range(1, n + 1):
                 tk = k * dt
                 re = integrate.dblquad(lambda y, x: np.real(corr.correlation(x - y)), 0, tk, 0,
@@ -360,6 +413,11 @@ def search(res):
                 want_e = rho_e * np.exp(-1j * (en[:, None] - en[None, :]) * tk) \
                     * np.exp(-om * (re * om + 1j * im * opp))
                 want = v @ want_e @ v.conj().T
+                if states_half is not None and np.abs(np.array(states_half[k]) - want).max() > 1e-5:
+                    res.fail("independent-boson:tempo:same System object with a second time step",
+                             {"api": "tempo", "case": case["desc"], "step": k, "second_dt": dt / 2,
+                              "difference": float(np.abs(np.array(states_half[k]) - want).max())})
+                    states_half = None
                 err = np.abs(np.array(states[k]) - want).max()
                 if err > 1e-5:
                     res.fail("independent-boson:%s%s" % (api, ":unique" if unique else ""),
@@ -387,6 +445,7 @@ def run(tier, seed, replay):
     try:
         corr_influence_args(res, tier, rng)
         corr_closed_form(res, tier, rng)
+        relations(res)
     except fw.Infra as e:
         res.oblige("correspondence run", False, str(e))
     return fw.finish(res, search)
